@@ -13,7 +13,8 @@ def classify(case_line):
 CFG = dict(
     imports=["From Verif.C02 Require Import Model Spec."],
     checker="check_case",
-    n=dict(quick=400, thorough=12000),
+    n=dict(quick=300, thorough=12000),
+    driver_args=lambda ctx, n, seed: ["-n", n, "-seed", seed, "-mode", "seq"],
     shard=50,
     classify=classify,
     rule="sequencer histories (8-50 callbacks over 5 IP sets x 6 members, 4 policies, 3 profiles, 4 endpoints (workload and host), "
@@ -23,7 +24,12 @@ CFG = dict(
     trusted=["Coq 8.16.1 kernel + vm_compute", "std++ (axiom-free)",
              "hand-written model coq/theories/C02/Model.v tied to felix/calc/event_sequencer.go and async_calc_graph.go by this correspondence run",
              "Go driver harness/C02 (overlay build, tag verif): its mapping of proto messages to abstract (kind,id,refs,version) messages"],
-    assumptions=["upstream contract (Spec.v cb_ok, closed at flush): IP set added only when absent, removed only when present, member "
+    assumptions=["NOT tied to the code by a correspondence run: the AsyncCalcGraph loop model (Model.v loop_step / maybe_flush) behind "
+                 "c02_insync_not_early - the loop and whole-graph driver modes were not built (time); the in-sync theorem is about the model only",
+                 "not modelled: config / ready flag / encapsulation / BGP config singletons and the wireguard maps of the sequencer",
+                 "for the phase order of the code as it stands the theorems need the extra restriction Spec.no_retarget; without it the "
+                 "statement is refuted (c02_vtep_retarget_refuted, known finding); for the repaired order no restriction is needed",
+                 "upstream contract (Spec.v cb_ok, closed at flush): IP set added only when absent, removed only when present, member "
                  "added only when absent / removed only when present in an existing set; at every Flush the net upstream state is reference-closed",
                  "a route 'needs' the VTEP of DstNodeName when IpPoolType=VXLAN and it is a REMOTE_WORKLOAD route"],
 )
@@ -37,6 +43,7 @@ MANIFEST = dict(
     category="proof",
     text="Theorems over an executable model of EventSequencer (pending maps/sets, sent sets, Flush phase order with arbitrary "
          "intra-phase order) for all callback histories inside the upstream contract and all flush points, plus a correspondence run "
-         "of model and specification oracle against the real sequencer / AsyncCalcGraph loop / calculation graph.",
+         "of model and specification oracle (closedness checked after every single message of the IMPLEMENTATION's stream) against the "
+         "real EventSequencer driven directly.",
     note="Trusted: Coq kernel; hand-written model tied to the code only by the correspondence run; Go driver.",
 )
